@@ -388,7 +388,7 @@ Proof.
   destruct p; cbn [lg_args]; [|discriminate]. apply IH. exact H.
 Qed.
 
-(* fixes.deinterpolate_logging_args (f-string form, after 3e858c8): for arguments whose str()/repr()/ascii() do not
+(* fixes.deinterpolate_logging_args (f-string form, after a03c366): for arguments whose str()/repr()/ascii() do not
    raise and whose format(v, "") is str(v), the logging call gives the same outcome, whether the level is enabled or not *)
 Theorem lg_rule_partial : forall objs ps msg args enabled,
   lg_rule ps = Some (msg, args) -> lg_benign objs ps = true ->
@@ -455,7 +455,7 @@ Proof.
   split; [reflexivity|]. split; [reflexivity|]. vm_compute. discriminate.
 Qed.
 
-(* the rule before 3e858c8 (str.format placeholders): the line is lost whenever there is a field *)
+(* the rule before a03c366 (str.format placeholders): the line is lost whenever there is a field *)
 Theorem lg_rule_old_refuted : exists objs ps msg args,
   lg_benign objs ps = true /\ lg_rule_old ps = Some (msg, args) /\
   lg_before objs true ps = LEmit (Some [97; 61; 49]%N) /\ lg_after objs true msg args = LEmit None.
@@ -602,7 +602,7 @@ Example cm_rule_example :
   map l_id (cm_rule (cm_table [(1, 2)]) src) = [0; 2; 3] /\ cm_sig (cm_rule (cm_table [(1, 2)]) src) = cm_sig src.
 Proof. vm_compute. split; reflexivity. Qed.
 
-(* without the classification hypothesis the claim fails: a '#' line inside a bytes literal before 93f3724 (the range
+(* without the classification hypothesis the claim fails: a '#' line inside a bytes literal before f6ddf69 (the range
    of the literal was not protected, the line is a piece of the string token) *)
 Theorem cm_rule_refuted_unprotected : exists parses src,
   cm_sig (cm_rule parses src) <> cm_sig src.
